@@ -224,6 +224,37 @@ def cli_part(ctx, rnd, bases):
     shutil.rmtree(root, ignore_errors=True)
 
 
+def many_failures_part(ctx):
+    """The exit status must be non-zero whenever any selected member fails - also when the number of failing members is a
+    multiple of 256 (an exit status only has eight bits)."""
+    root = os.path.join(build.scratch_root(), 'c07many')
+    cli.mkdir_for_nobody(root)
+    for nbad, ngood in ((1, 0), (255, 1), (256, 0), (256, 3), (257, 0), (512, 1)):
+        ms = []
+        for k in range(nbad + ngood):
+            data = b'd%03d' % k
+            m = H.simple_member(b'f%03d' % k, data, level=k % 3)
+            if k < nbad:
+                m['crc'] ^= 0x0100
+            ms.append(arc.Member(m, data, data))
+        a = arc.archive(ms)
+        d = os.path.join(root, 'n%d_%d' % (nbad, ngood))
+        cli.mkdir_for_nobody(d)
+        open(os.path.join(d, 'a.lzh'), 'wb').write(a)
+        os.chmod(os.path.join(d, 'a.lzh'), 0o644)
+        for mode in ('t', 'xf', 'tq', 'xq'):
+            rc, so, se = cli.run_lha(_CLI, [mode, 'a.lzh'], d, as_nobody=True)
+            ctx.count('cli_runs')
+            ctx.cov['evaluations'] += 1
+            if rc == 0:
+                ctx.violation('C07-cli-exit-status:%s:many-failures' % mode[0], "'lha %s' exited 0 although %d of %d members fail their CRC"
+                              % (mode, nbad, nbad + ngood), a)
+            nbadlines = so.count(b'CRC error') + so.count(b'Failure')
+            if mode in ('t', 'xf') and nbadlines != nbad:
+                ctx.violation('C07-cli-line-count:%s' % mode[0], "'lha %s' printed %d failure lines for %d failing members" % (mode, nbadlines, nbad), a)
+    shutil.rmtree(root, ignore_errors=True)
+
+
 def burst_part(ctx, exe_enum):
     """Exhaustive (thorough) / sampled (quick) bursts of 1..16 bits on a 6-byte stored member, in-process."""
     x = arc.Member(H.simple_member(b'burst.bin', b'\x13\x37\xc0\xde\x00\xff', level=2), b'\x13\x37\xc0\xde\x00\xff', b'\x13\x37\xc0\xde\x00\xff')
@@ -264,6 +295,7 @@ def run(ctx):
     args = [(ctx.seed * 53 + i, bases[i::nsh], ctx.tier) for i in range(nsh)]
     core.run_shards(ctx, shard, args)
     cli_part(ctx, rnd, bases[::3] if ctx.tier == 'quick' else bases)
+    many_failures_part(ctx)
     burst_part(ctx, enum)
     ctx.cov['rule'] = ('archive variants (valid; recorded length n+-1/0/2^32-1; every single-bit flip of the recorded CRC; bit flips in member '
                        'data - every byte for small stored members; every truncation of small archives) over members of all 14 methods; three '
